@@ -284,7 +284,7 @@ func (c *Check) ruleTruncationKeepsForkPoint(rule string) {
 					hl := linOfValue(sl.High)
 					if len(hl.terms) == 1 {
 						for t, cf := range hl.terms {
-							if fi := foundIndexOf(hl.atoms[t]); cf == 1 && fi != nil {
+							if fi := foundIndexOfAt(hl.atoms[t], sl); cf == 1 && fi != nil {
 								if d, ok := linOfValue(fi).minus(linOfValue(idx)).isConst(); ok {
 									k, isC = hl.k+d, true
 								}
@@ -511,7 +511,12 @@ func (c *Check) ruleParentFetchedPerInput(rule string) {
 
 // foundIndexOf: v is the result of a search that answers "index of the match or -1": a join whose inputs
 // are the constant -1 and one other value; returns that value.
-func foundIndexOf(v ssa.Value) ssa.Value {
+func foundIndexOf(v ssa.Value) ssa.Value { return foundIndexOfAt(v, nil) }
+
+// foundIndexOfAt: as foundIndexOf for a use at instruction `at`: an earlier found-index variable merged in
+// that is known to be -1 at the use (the use is behind `earlier == -1`: the first search found
+// nothing and the variable was reused for the second) counts as the constant.
+func foundIndexOfAt(v ssa.Value, at ssa.Instruction) ssa.Value {
 	phi, ok := stripConv(v).(*ssa.Phi)
 	if !ok {
 		return nil
@@ -529,6 +534,21 @@ func foundIndexOf(v ssa.Value) ssa.Value {
 				continue
 			}
 			if p2, ok := e.(*ssa.Phi); ok && loopBody(p2.Block()) == nil {
+				if at != nil {
+					isMinus1 := func(iff *ssa.If, br int) bool {
+						r, okr := edgeRel(iff, br)
+						if !okr || r.Op != token.EQL {
+							return false
+						}
+						if k, isC := constInt(r.Y); isC && k == -1 && stripConv(r.X) == ssa.Value(p2) {
+							return true
+						}
+						return false
+					}
+					if behind, _ := mustPass(at, isMinus1); behind {
+						continue
+					}
+				}
 				// a plain join forwards values; a loop variable (header phi) is a value of its own
 				if !walk(p2) {
 					return false
